@@ -3,7 +3,8 @@
 // verif:pkg pkg/flowcontrols/flowcontrol
 // verif:init github.com/zoumo/golib/lock/maxinflight
 // verif:encode github.com/zoumo/golib/lock/maxinflight
-// verif:opt unwind=12 witnesses=0 maxpaths=400000
+// verif:sched github.com/zoumo/golib/lock/maxinflight
+// verif:opt unwind=12 witnesses=12 maxpaths=400000
 
 package flowcontrol
 
